@@ -45,7 +45,7 @@ Theorem C11_no_relay_on_bad_upstream :
     let hf := run is_ip_literal connect handshake openssl_run client_flush client_handshake
                   PS RS pipeline_step response_step fl host port answers fs0 p0 r0 evs in
     up_buf (ps hf) = [] /\ up_wire (ps hf) = [] /\
-    map snd (cl_wire (ps hf)) ++ cl_buf (ps hf) = [K200] /\ plain_wire (cl_wire (ps hf)) /\
+    concat (map snd (cl_wire (ps hf))) ++ concat (cl_buf (ps hf)) = K200 /\ plain_wire (cl_wire (ps hf)) /\
     cl (ps hf) = ClPlain /\ up (ps hf) = UpDead /\
     tr (ps hf) = [EConnect h port; EClientQueue K200; EUpstreamWrap (policy_call fl h)] /\
     mode hf <> Running /\
@@ -69,7 +69,7 @@ Theorem C11_no_relay_when_handshake_raises :
     let hf := run is_ip_literal connect handshake openssl_run client_flush client_handshake
                   PS RS pipeline_step response_step fl host port answers fs0 p0 r0 evs in
     up_buf (ps hf) = [] /\ up_wire (ps hf) = [] /\
-    map snd (cl_wire (ps hf)) ++ cl_buf (ps hf) = [K200] /\ plain_wire (cl_wire (ps hf)) /\
+    concat (map snd (cl_wire (ps hf))) ++ concat (cl_buf (ps hf)) = K200 /\ plain_wire (cl_wire (ps hf)) /\
     cl (ps hf) = ClPlain /\ up (ps hf) = UpDead /\
     tr (ps hf) = [EConnect h port; EClientQueue K200; EUpstreamWrap (policy_call fl h)] /\
     mode hf <> Running /\
@@ -119,7 +119,10 @@ Print Assumptions C11_tls_only_for_good_origin.
 (* ---------------------------------------------------------------- the verification policy *)
 (* Whatever happens, at most one upstream handshake is attempted per CONNECT, and its context is:
    verify_mode = CERT_NONE iff the insecure switch is on, otherwise CERT_REQUIRED with check_hostname;
-   server_hostname = the CONNECT host (brackets of an IPv6 literal removed); cafile = --ca-file. *)
+   server_hostname = the CONNECT host (brackets of an IPv6 literal removed); cafile = --ca-file and NOTHING
+   else: no further trust source is loaded into the context (load_default_certs, load_verify_locations,
+   set_default_verify_paths ...: wc_extra_trust = []) and verify_flags / protocol versions / options are
+   what create_default_context left (wc_settings_default = true). *)
 Theorem C11_verify_policy :
   forall (is_ip_literal : bytes -> bool) (connect : bytes -> N -> option pyexn)
          (handshake : wrap_call -> hs_result) (openssl_run : openssl_cmd -> run_result)
@@ -140,7 +143,7 @@ Theorem C11_policy_call_fields : forall fl h,
   (wc_verify_mode c = CERT_NONE <-> insecure_tls_interception fl = true) /\
   (insecure_tls_interception fl = false -> wc_verify_mode c = CERT_REQUIRED /\ wc_check_hostname c = true) /\
   wc_server_hostname c = Some (strip_brackets h) /\
-  wc_cafile c = ca_file fl.
+  wc_cafile c = ca_file fl /\ wc_extra_trust c = [] /\ wc_settings_default c = true.
 Proof. exact policy_call_fields. Qed.
 Print Assumptions C11_policy_call_fields.
 
@@ -153,8 +156,10 @@ Print Assumptions C11_intercept_gate.
 (* ---------------------------------------------------------------- opt-out is an opaque tunnel *)
 (* If interception is off or a plugin's do_intercept returns False - at the CONNECT and at every later
    call - there is no wrap call and no openssl command at all (the trace is connect, queue-200), both
-   sockets stay plain, and chunk for chunk, in order, unmodified: what the client sends is what is
-   queued/sent to the origin, and what the origin sends is what the client gets after the 200 reply. *)
+   sockets stay plain, and byte for byte, in order: what the client sends is what is sent/queued to the
+   origin, and what the origin sends is what the client gets after the 200 reply.  [benign]: the event list
+   may contain, at any position, short writes and every "would block, try again" answer of a non-blocking
+   socket (BlockingIOError / SSLWantWriteError on send, SSLWantReadError on recv): the tunnel keeps running. *)
 Theorem C11_optout_is_tunnel :
   forall (is_ip_literal : bytes -> bool) (connect : bytes -> N -> option pyexn)
          (handshake : wrap_call -> hs_result) (openssl_run : openssl_cmd -> run_result)
@@ -165,14 +170,14 @@ Theorem C11_optout_is_tunnel :
          (p0 : PS) (r0 : RS) (evs : list event),
     text_ host = Ok h -> host <> [] -> port <> 0 -> connect h port = None ->
     tls_intercept_enabled_ fl answers = false ->
-    Forall (declined fl) evs ->
+    Forall (declined fl) evs -> Forall benign evs ->
     let hf := run is_ip_literal connect handshake openssl_run client_flush client_handshake
                   PS RS pipeline_step response_step fl host port answers fs0 p0 r0 evs in
     tr (ps hf) = [EConnect h port; EClientQueue K200] /\ fs (ps hf) = fs0 /\
     mode hf = Running /\ cl (ps hf) = ClPlain /\ up (ps hf) = UpPlain /\
     plain_wire (cl_wire (ps hf)) /\ plain_wire (up_wire (ps hf)) /\
-    map snd (up_wire (ps hf)) ++ up_buf (ps hf) = client_chunks evs /\
-    map snd (cl_wire (ps hf)) ++ cl_buf (ps hf) = K200 :: upstream_chunks evs.
+    concat (map snd (up_wire (ps hf))) ++ concat (up_buf (ps hf)) = concat (client_chunks evs) /\
+    concat (map snd (cl_wire (ps hf))) ++ concat (cl_buf (ps hf)) = K200 ++ concat (upstream_chunks evs).
 Proof. exact optout_is_tunnel. Qed.
 Print Assumptions C11_optout_is_tunnel.
 
@@ -242,7 +247,9 @@ Print Assumptions C11_cert_cache.
    exactly what is queued for the origin and it leaves only inside the upstream TLS session; every origin
    chunk is queued for the client unmodified, in order, and leaves only inside the client TLS session; the
    only plaintext the client ever received is (a prefix of) the CONNECT reply - the client's byte stream
-   is K200 followed by the origin's bytes. *)
+   is K200 followed by the origin's bytes.  As above the event list may contain short writes and would-block
+   answers (SSLWantWriteError on the upstream TLS send, SSLWantReadError on either recv) at any position:
+   the exchange stays established and not a byte is lost, duplicated or reordered. *)
 Theorem C11_intercepted_exchange_partial :
   forall (is_ip_literal : bytes -> bool) (connect : bytes -> N -> option pyexn)
          (handshake : wrap_call -> hs_result) (openssl_run : openssl_cmd -> run_result)
@@ -256,15 +263,15 @@ Theorem C11_intercepted_exchange_partial :
     let hf := run is_ip_literal connect handshake openssl_run client_flush client_handshake
                   PS RS pipeline_step response_step fl host port answers fs0 p0 r0 evs in
     cl (ps h1) = ClTls ->
-    Forall (engaged_at fl) evs ->
+    Forall (engaged_at fl) evs -> Forall benign evs ->
     pipeline_outs pipeline_step p0 (client_chunks evs) = Some outs ->
     responses_ok response_step r0 (upstream_chunks evs) = true ->
     established hf /\
     exists w0 wc,
       cl_wire (ps hf) = w0 ++ wc /\ plain_wire w0 /\ tls_wire wc /\
       tls_wire (up_wire (ps hf)) /\
-      map snd (up_wire (ps hf)) ++ up_buf (ps hf) = outs /\
-      concat (map snd w0) ++ concat (map snd wc ++ cl_buf (ps hf)) = K200 ++ concat (upstream_chunks evs).
+      concat (map snd (up_wire (ps hf))) ++ concat (up_buf (ps hf)) = concat outs /\
+      concat (map snd w0) ++ concat (map snd wc) ++ concat (cl_buf (ps hf)) = K200 ++ concat (upstream_chunks evs).
 Proof. exact intercepted_exchange. Qed.
 Print Assumptions C11_intercepted_exchange_partial.
 
@@ -311,6 +318,23 @@ Example C11_nonvacuous_established :
   channel true (cl_wire (ps hf)) = bs "response-1" ++ bs "response-2" /\
   channel true (up_wire (ps hf)) = bs "request-1" ++ bs "request-2" /\ channel false (up_wire (ps hf)) = [].
 Proof. vm_compute. repeat split. right; right; right; right; right; left; reflexivity. Qed.
+
+Example C11_nonvacuous_would_block :
+  let sc := ex_script (ChainTrustedBy (bs "/x/trust.pem")) [bs "example.com"] in
+  let evs := [ClientRecvRaise SSLWantReadError; ClientData [true] (bs "request-1");
+              UpstreamWrite (SendOk 4); UpstreamWrite (SendRaise SSLWantWriteError); UpstreamWrite (SendOk 2);
+              UpstreamWrite (SendRaise BlockingIOError_); FlushUpstream;
+              UpstreamRecvRaise SSLWantReadError; UpstreamData [true] (bs "response-1");
+              ClientWrite (SendOk 3); FlushClient] in
+  let hf := sim_run sc ex_flags (bs "example.com") 443 [true] [] evs in
+  Forall benign evs /\ established hf /\
+  channel true (up_wire (ps hf)) = bs "request-1" /\ channel true (cl_wire (ps hf)) = bs "response-1" /\
+  up_buf (ps hf) = [] /\ cl_buf (ps hf) = [] /\
+  map (fun x => length (snd x)) (up_wire (ps hf)) = [4; 2; 3]%nat.
+Proof.
+  vm_compute. split; [|repeat split].
+  repeat (constructor; [first [exact I | reflexivity | (right; reflexivity) | (left; reflexivity)]|]). constructor.
+Qed.
 
 Example C11_nonvacuous_tunnel :
   let sc := ex_script ChainUntrusted [] in
